@@ -54,7 +54,14 @@ PROPS_PART = {
                      what='every response of the enumeration decodes completely under the independent decoder (wire_ref.rs/srv_ref.rs): counts match, message ends after the last record, names/pointers valid and backward, OPT at most once and in the additional section, TSIG last'),
                 dict(bin='bnd_server_answers', when='quick',
                      bound='64 variants (6 toggles) of a ~75-record zone ap.ex. (alone in a SingleZoneCatalog / with a child zone two labels below an entry-less node, a child zone at the delegation and a class-CH zone in a HashMapTreeCatalog) and a zone bg. with RRsets/referrals overflowing 512/1232 octets (queries to bg. also TSIG-signed) x every owner name, a child of each, 30-38 extra names (mixed case, outside) x 10 QTYPEs (A NS CNAME SOA MX TXT AAAA SRV ANY TYPE257) x QCLASS IN (+CH) x EDNS none/1232/4096/600 x TCP + UDP with response buffers of 1232/65535/70000 octets',
-                     what='every response (incl. truncated, SERVFAIL after a CNAME loop, TSIG-signed with a key name sharing labels with discarded RDATA names, RRsets failing part-way at the size limit) decodes completely under the independent decoder')],
+                     what='every response (incl. truncated, SERVFAIL after a CNAME loop, TSIG-signed with a key name sharing labels with discarded RDATA names, RRsets failing part-way at the size limit) decodes completely under the independent decoder; '
+                          'every compression pointer of every response points strictly backwards to the first octet of a label of an earlier name (srv_ref::pointer_check); responses of MORE THAN 16384 OCTETS: zone hg. with '
+                          'big.hg. MX = 1020/1021/1022 records with exchange big.hg. + 2-4 exchanges sharing suffixes (out-of-zone a^L.uniq.zzz./b.uniq.zzz., in-zone a^L.uniq.hg./b.uniq.hg./B.UNIQ.hg., three labels deep '
+                          'a^L.mid.uniq.zzz./b.uniq.zzz./c.b.uniq.zzz.), L = 18..=30 / 1..=24 / 1, 9 so that each label of the first of them lies on either side of offset 16384; over TCP without and with EDNS (234 responses)'),
+                dict(bin='bnd_writer_ptr', when='quick',
+                     bound='see C13 (same operation sequences as bnd_writer; P4: [question] + one filler record ending at offset 0x3fff-d, d in -2..=26, + all sequences of <= 3 of 10 record/RRset operations: names around and beyond the reach of a 14-bit pointer)',
+                     what='"every name is well formed" on the real Writer: each compression pointer of the finished message points strictly backwards to the first octet of a label of a name completed earlier (never into the header, '
+                          'never forward, never at a pointer); only counterexamples tagged [C02] count here (the clauses "no pointer inside SRV / Chaosnet A / unknown-type RDATA / when compression is disabled" are C13 only)')],
         unverified=['whole-response decoding theorem (composition of the per-operation contracts)',
                     'write_compressed_unhinted_name: assumed contract, bounded Kani only (thorough tier of C12/C13)'],
         assumptions=['see C12, C13, C03, C05'],
